@@ -120,3 +120,49 @@ def run_episode(env, td_instance, modes, streams, cap, keep_states=False, reset=
         t += 1
     ep.td = td
     return ep
+
+
+def run_episode_torchrl(env, td_instance, modes, streams, cap, keep_states=False, probe=False):
+    """Same driver in TorchRL stepping mode (`env._torchrl_mode = True`): `env.step(td)` writes the successor state
+    under td["next"] and leaves the state held by `td` itself untouched, so a caller may evaluate several actions from
+    one state (look-ahead / tree search) before committing to one.  With `probe`, at every step a second mask-admitted
+    action (the row's highest feasible index, or its lowest if that is the committed one) is evaluated from the same
+    td first and its result discarded; the committed episode still consists of mask-admitted actions only."""
+    ep = Episode()
+    td = env.reset(td_instance.clone())
+    B = td.batch_size[0]
+    ep.td0 = td.clone()
+    done = row_done(td["done"], B) if "done" in td.keys() else torch.zeros(B, dtype=torch.bool)
+    t = 0
+    while not bool(done.all()):
+        if t >= cap:
+            ep.cap_hit = True
+            break
+        mask = flat_mask(td["action_mask"], B)
+        acts = pick_actions(mask, modes, streams, t)
+        if bool((acts < 0).any()):
+            ep.dead_end = (t, int(torch.nonzero(acts < 0)[0]))
+            ep.masks.append(mask.clone())
+            break
+        ep.masks.append(mask.clone())
+        ep.actions.append(acts.clone())
+        if probe:
+            hi = pick_actions(mask, ["last"] * B, streams, t)
+            lo = pick_actions(mask, ["first"] * B, streams, t)
+            td.set("action", torch.where(hi == acts, lo, hi))
+            env.step(td)  # evaluated and discarded
+            td = td.exclude("next")  # drop the probed successor (same state tensors, no copy)
+        td.set("action", acts)
+        td = env.step(td)["next"]
+        if "next" in td.keys():  # what torchrl's step_mdp does: the successor becomes the root, no nesting
+            td = td.exclude("next")
+        new_done = row_done(td["done"], B)
+        if ep.done_regressed is None and bool((done & ~new_done).any()):
+            ep.done_regressed = (t, int(torch.nonzero(done & ~new_done)[0]))
+        done = new_done
+        ep.dones.append(done.clone())
+        if keep_states:
+            ep.states.append(td.clone())
+        t += 1
+    ep.td = td
+    return ep
